@@ -23,17 +23,18 @@ int g_track;                 /* stubs track prefix lengths (mkpath groups) */
 int g_md, g_stat;            /* last mkdir outcome: 1 created, 2 EEXIST, 3 other failure; last stat: 1 failed, 2 dir, 3 not dir */
 unsigned g_calls;
 
-/* length of the string p, which must be a prefix of the path.  Loop-free: l is chosen with
- * p[l] == 0 (one exists: p[PMAX] == 0 is asserted first); that no NUL comes earlier and that
- * the characters are the path's is ASSERTED at an arbitrary position j, i.e. for every j. */
+/* length of the string p (first NUL; loop-free: the 16 comparisons are written out), which
+ * must be a prefix of the path: asserted at an arbitrary position j < l, i.e. for every j. */
+#define Z1(i) ((i) >= l || p[i] != 0)
 static unsigned c09_preflen(const char *p)
 {
-	VASSERT(p[PMAX] == 0 || p[g_n] == 0, "mkdir/stat argument is NUL terminated within the bound");
+	VASSERT(p[PMAX] == 0, "mkdir/stat argument is NUL terminated within the bound");
 	unsigned l = nondet_uint();
 	__CPROVER_assume(l <= PMAX && p[l] == 0);
+	__CPROVER_assume(Z1(0) && Z1(1) && Z1(2) && Z1(3) && Z1(4) && Z1(5) && Z1(6) && Z1(7)
+		&& Z1(8) && Z1(9) && Z1(10) && Z1(11) && Z1(12) && Z1(13) && Z1(14) && Z1(15));
 	unsigned j = nondet_uint();
 	__CPROVER_assume(j < l);
-	VASSERT(p[j] != 0, "chosen length is the string length");
 	VASSERT(p[j] == g_pc[j], "mkdir/stat argument is a prefix of the path");
 	return l;
 }
